@@ -16,8 +16,7 @@ State = what is on disk, abstractly:
 * `issued`    : how many upload ids were issued (ids are random UUIDs; the harness renames them 1,2,…).
 
 `step` mirrors every check of each operation in the order of the Rust source, so that the same error
-wins. Arithmetic is that of a release build (`u64` wraps in `upload_part_copy`; a debug build panics
-there). Not modelled: timestamps, the tmp-file counter, I/O faults, names longer than the OS allows
+wins. (Since 814bd03 `upload_part_copy` has no wrapping `u64` arithmetic left.) Not modelled: timestamps, the tmp-file counter, I/O faults, names longer than the OS allows
 for key components (side-file names are modelled: `sideTooLong`), non-UTF-8 names.
 -/
 namespace S3V.FsStore
@@ -177,17 +176,18 @@ def rangeCheck (r : Range) (len : Nat) : Option (Nat × Nat) :=
       let n := min n len
       some (len - n, len)
 
-/-! ## `upload_part_copy`: the hand-written `x-amz-copy-source-range` reader -/
+/-! ## `upload_part_copy`: the hand-written `x-amz-copy-source-range` reader (`parse_copy_source_range`, 814bd03) -/
 
 def sBytesEq : Bytes := [98, 121, 116, 101, 115, 61]
 
-def splitOnByte (d : UInt8) : Bytes → List Bytes
-  | [] => [[]]
+/-- `str::split_once(d)`: what precedes and what follows the first `d` -/
+def splitOnce (d : UInt8) : Bytes → Option (Bytes × Bytes)
+  | [] => none
   | c :: cs =>
-    if c = d then [] :: splitOnByte d cs
-    else match splitOnByte d cs with
-      | [] => [[c]]
-      | h :: t => (c :: h) :: t
+    if c = d then some ([], cs)
+    else match splitOnce d cs with
+      | none => none
+      | some (a, z) => some (c :: a, z)
 
 /-- a leading `+` removed -/
 def stripPlus : Bytes → Bytes
@@ -202,23 +202,27 @@ def parseU64 (s : Bytes) : Option Nat :=
     | some v => if v < u64Mod then some v else none
     | none => none
 
-/-- `(start, end)` as the code computes them (wrapping `u64`), or `InvalidArgument` -/
+/-- `position`: at least one character and only digits (`str::parse` alone would accept a sign), then `str::parse::<u64>` -/
+def parsePos (s : Bytes) : Option Nat :=
+  if s = [] ∨ !s.all isDigit then none else parseU64 s
+
+/-- the bytes `start..end` of the source `upload_part_copy` copies: everything without a range; for a range
+    `parse_copy_source_range(range, file_len)` — `bytes=first-last`, both positions given, `first ≤ last < file_len` —
+    the interval `first..last + 1`; `none` = `InvalidArgument` -/
 def copyRange (range : Option Bytes) (fileLen : Nat) : Option (Nat × Nat) :=
-  let lenM1 := (fileLen + u64Mod - 1) % u64Mod
   match range with
-  | none => some (0, lenM1)
+  | none => some (0, fileLen)
   | some r =>
     if r.take 6 ≠ sBytesEq then none
-    else match splitOnByte 45 (r.drop 6) with
-      | [a, b] =>
-        match parseU64 a with
+    else match splitOnce 45 (r.drop 6) with
+      | none => none
+      | some (a, b) =>
+        match parsePos a with
         | none => none
-        | some start =>
-          if b = [] then some (start, lenM1)
-          else match parseU64 b with
-            | none => none
-            | some e => some (start, e)
-      | _ => none
+        | some first =>
+          match parsePos b with
+          | none => none
+          | some last => if first ≤ last ∧ last < fileLen then some (first, last + 1) else none
 
 /-! ## `list_objects_v2` helpers -/
 
@@ -603,10 +607,11 @@ def step (H : Hashes) (dirLen : Nat) (s : State) : Op → State × Resp
             if alHas sbd s.buckets then (s, .err .NoSuchKey) else (s, .err .NoSuchBucket)
           | some .dir => (s, .unmodelled)
           | some (.file c) =>
+            -- 814bd03: a range that is not `bytes=first-last` inside the source is refused; `start..e` is what is copied
             match copyRange range c.length with
             | none => (s, .err .InvalidArgument)
             | some (start, e) =>
-              let cl := (e + u64Mod - start + 1) % u64Mod
+              let cl := e - start
               if start > i64Max then (s, .err .InternalError)     -- `seek(Start(start))` beyond `i64::MAX`
               else
                 let body := (c.drop start).take cl
